@@ -147,21 +147,26 @@ def decodeUint64 : Dec Nat := do
   else if 0xe0 ≤ c then bad "assigning negative signed value to unsigned type"
   else bad "cannot decode unsigned integer"
 
+/-- an integer of `w` bytes read through `f` -/
+def readInt (f : Nat → Int) (w : Nat) : Dec Int := do
+  let n ← readBE w
+  pure (f n)
+
 /-- msgpackDecDriver.DecodeInt64 (`uint64 → int64` wraps; `int` is 64 bits wide,
     so `chkOvf.IntV(_, 64)` never fires) -/
 def decodeInt64 : Dec Int := do
   let bd ← readn1
   let c := bd.toNat
-  if c = 0xcc then (fun n => (n : Int)) <$> readBE 1
-  else if c = 0xcd then (fun n => (n : Int)) <$> readBE 2
-  else if c = 0xce then (fun n => (n : Int)) <$> readBE 4
-  else if c = 0xcf then signedOf 64 <$> readBE 8
-  else if c = 0xd0 then signedOf 8 <$> readBE 1
-  else if c = 0xd1 then signedOf 16 <$> readBE 2
-  else if c = 0xd2 then signedOf 32 <$> readBE 4
-  else if c = 0xd3 then signedOf 64 <$> readBE 8
-  else if c < 0x80 then pure (c : Int)
-  else if 0xe0 ≤ c then pure ((c : Int) - 256)
+  if c = 0xcc then readInt Int.ofNat 1
+  else if c = 0xcd then readInt Int.ofNat 2
+  else if c = 0xce then readInt Int.ofNat 4
+  else if c = 0xcf then readInt (signedOf 64) 8
+  else if c = 0xd0 then readInt (signedOf 8) 1
+  else if c = 0xd1 then readInt (signedOf 16) 2
+  else if c = 0xd2 then readInt (signedOf 32) 4
+  else if c = 0xd3 then readInt (signedOf 64) 8
+  else if c < 0x80 then pure (Int.ofNat c)
+  else if 0xe0 ≤ c then pure (Int.ofNat c - 256)
   else bad "cannot decode signed integer"
 
 /-- msgpackDecDriver.DecodeBool -/
@@ -290,24 +295,29 @@ def extLen (c : Nat) : Dec Nat :=
 
 def isExt (c : Nat) : Bool := (0xd4 ≤ c ∧ c ≤ 0xd8) ∨ (0xc7 ≤ c ∧ c ≤ 0xc9)
 
+/-- a number of `w` bytes read as a map key -/
+def readKey (f : Nat → GKey) (w : Nat) : Dec (Option GKey) := do
+  let n ← readBE w
+  pure (some (f n))
+
 /-- DecodeNaked on a scalar descriptor `c` (already read): `some key` or
     `none` = not a scalar (container, bytes, ext, 0xc1) -/
 def nakedScalar (c : Nat) : Dec (Option GKey) :=
   if c = 0xc0 then pure (some .nil)
   else if c = 0xc2 then pure (some (.bool false))
   else if c = 0xc3 then pure (some (.bool true))
-  else if c = 0xca then (fun n => some (.float (f32canon n))) <$> readBE 4
-  else if c = 0xcb then (fun n => some (.float (f64canon n))) <$> readBE 8
-  else if c = 0xcc then (fun n => some (.uint n)) <$> readBE 1
-  else if c = 0xcd then (fun n => some (.uint n)) <$> readBE 2
-  else if c = 0xce then (fun n => some (.uint n)) <$> readBE 4
-  else if c = 0xcf then (fun n => some (.uint n)) <$> readBE 8
-  else if c = 0xd0 then (fun n => some (.int (signedOf 8 n))) <$> readBE 1
-  else if c = 0xd1 then (fun n => some (.int (signedOf 16 n))) <$> readBE 2
-  else if c = 0xd2 then (fun n => some (.int (signedOf 32 n))) <$> readBE 4
-  else if c = 0xd3 then (fun n => some (.int (signedOf 64 n))) <$> readBE 8
-  else if c < 0x80 then pure (some (.int c))
-  else if 0xe0 ≤ c then pure (some (.int ((c : Int) - 256)))
+  else if c = 0xca then readKey (fun n => .float (f32canon n)) 4
+  else if c = 0xcb then readKey (fun n => .float (f64canon n)) 8
+  else if c = 0xcc then readKey .uint 1
+  else if c = 0xcd then readKey .uint 2
+  else if c = 0xce then readKey .uint 4
+  else if c = 0xcf then readKey .uint 8
+  else if c = 0xd0 then readKey (fun n => .int (signedOf 8 n)) 1
+  else if c = 0xd1 then readKey (fun n => .int (signedOf 16 n)) 2
+  else if c = 0xd2 then readKey (fun n => .int (signedOf 32 n)) 4
+  else if c = 0xd3 then readKey (fun n => .int (signedOf 64 n)) 8
+  else if c < 0x80 then pure (some (.int (Int.ofNat c)))
+  else if 0xe0 ≤ c then pure (some (.int (Int.ofNat c - 256)))
   else pure none
 
 /-- the extension families in DecodeNaked: `true` = go-codec decodes a further
